@@ -6,6 +6,7 @@ import (
 	"math"
 	"math/cmplx"
 	"runtime"
+	"sort"
 	"sync/atomic"
 
 	r "github.com/Trisia/randomness"
@@ -192,6 +193,106 @@ func Run(ctx *common.Ctx) int {
 				c.one(b, func() interface{} { return map[string]interface{}{"n": n, "content": in.name, "flips": []int{pos}} })
 			}
 		})
+	}
+	// S3: the threshold itself. Bin N/4 of the transform is (A0-A2) - i(A1-A3) with integer sums over the index
+	// classes mod 4: its squared magnitude is an integer K, compared with 2.995732274 n exactly. For the lengths
+	// n in (2^14, 2^18] whose threshold lies closest above / below an integer that is a sum of two squares of
+	// the right parities, a filler is adjusted so that the bin sits on that integer: the nearest a magnitude can get
+	// to the threshold from either side (relative distance 1e-12..1e-9). The count must include / exclude it.
+	{
+		const scale = 1000000000
+		type cand struct {
+			n, K, a, b int
+			below      bool
+			gap        float64 // relative distance of K from the threshold
+		}
+		var cs []cand
+		for n := 1<<14 + 8; n <= 1<<18; n++ {
+			t2 := int64(2995732274) * int64(n) // threshold^2 * 1e9, exact
+			k0 := int(t2 / scale)
+			frac := float64(t2%scale) / scale
+			for side := 0; side < 2; side++ {
+				K, gap := k0, frac
+				if side == 1 {
+					K, gap = k0+1, 1-frac
+				}
+				rel := gap / (float64(t2) / scale)
+				if rel < 1e-12 || rel > 1e-9 {
+					continue
+				}
+				// parities: a = A0-A2 has the parity of c0+c2, b of c1+c3 (class sizes below n)
+				pa := ((n+3)/4 + (n+1)/4) % 2
+				pb := ((n+2)/4 + n/4) % 2
+				for a := 0; a*a <= K; a++ {
+					b2 := K - a*a
+					b := int(math.Sqrt(float64(b2)) + 0.5)
+					if b*b == b2 && a%2 == pa && b%2 == pb && a > 3 && b > 3 {
+						cs = append(cs, cand{n, K, a, b, side == 0, rel})
+						break
+					}
+				}
+			}
+		}
+		sort.Slice(cs, func(i, j int) bool { return cs[i].gap < cs[j].gap })
+		maxC := 10
+		if !quick {
+			maxC = 40
+		}
+		used, skipped := 0, 0
+		var s3 int64
+		for _, cd := range cs {
+			if used >= maxC || ctx.Expired() {
+				break
+			}
+			bits := enum.Filler(cd.n, uint64(ctx.Seed)+uint64(cd.n))
+			// adjust the class sums: flipping a bit of class r changes A_r by +-2
+			sums := [4]int{}
+			for j, bt := range bits {
+				if bt {
+					sums[j%4]++
+				} else {
+					sums[j%4]--
+				}
+			}
+			fix := func(cls, want, minus int) bool {
+				cur := sums[cls] - sums[minus]
+				for j := cls; j < cd.n && cur != want; j += 4 {
+					if cur < want && !bits[j] {
+						bits[j] = true
+						cur += 2
+					} else if cur > want && bits[j] {
+						bits[j] = false
+						cur -= 2
+					}
+				}
+				return cur == want
+			}
+			if !fix(0, cd.a, 2) || !fix(1, cd.b, 3) {
+				skipped++
+				continue
+			}
+			n1, ok := refmodel.DFTCountsQuarter(bits, cd.below)
+			if !ok {
+				skipped++
+				continue
+			}
+			used++
+			s3++
+			atomic.AddInt64(&c.evals, 1)
+			var p, q float64
+			desc := func() interface{} {
+				return map[string]interface{}{"n": cd.n, "filler_seed": ctx.Seed + int64(cd.n), "bin_N/4_squared_magnitude": cd.K, "threshold_squared": 2.995732274 * float64(cd.n),
+					"relative_distance": cd.gap, "counts_as_below_threshold": cd.below, "class_sums": []int{cd.a, cd.b}}
+			}
+			if pv := common.Catch(func() { p, q = r.DiscreteFourierTransformTest(bits) }); pv != nil {
+				cmp.Panic("DiscreteFourierTransformTest", pv, desc())
+				continue
+			}
+			wp, wq := refmodel.DFTFromCount(cd.n, n1)
+			cmp.PQ("DiscreteFourierTransformTest(threshold)", uint64(cd.n)<<20, p, q, wp, wq, desc)
+		}
+		cmp.Count(fmt.Sprintf("S3: bin N/4 on the integer next to the threshold (relative distance 1e-12..1e-9), n in (2^14, 2^18]: %d lengths used, %d skipped, %d candidates", used, skipped, len(cs)), s3)
+		cmp.Sample(map[string]interface{}{"family": "S3", "rule": "n in (2^14, 2^18]: 2.995732274 n within a relative 1e-9 of an integer K = a^2 + b^2 (a, b of the parities the class sizes force); filler adjusted to A0-A2 = a, A1-A3 = b; the bin is compared with the threshold in exact integer arithmetic", "candidates": len(cs)})
 	}
 	// the same function under other GOMAXPROCS settings (work split over workers must not depend on their number)
 	s2 := c.evals
